@@ -94,12 +94,37 @@ def collect_placement(opt, params):
     return placement
 
 
+def find_distributors(opt):
+    """the live distributor objects of an optimizer, one per param group, found by walking the optimizer's own attributes
+    (any container nesting, any attribute / key names) for instances of a class called *Distributor"""
+    found, seen = [], set()
+
+    def walk(o, depth):
+        if id(o) in seen or depth > 4:
+            return
+        seen.add(id(o))
+        if type(o).__name__.endswith("Distributor"):
+            found.append(o)
+            return
+        if isinstance(o, dict):
+            for v in o.values():
+                walk(v, depth + 1)
+        elif isinstance(o, (list, tuple)):
+            for v in o:
+                walk(v, depth + 1)
+
+    for k, v in vars(opt).items():
+        if k in ("state", "param_groups", "defaults"):
+            continue
+        walk(v, 0)
+    return found
+
+
 def live_buffer_geometry(opt, params=None):
     """byte-level geometry of the live distributor's communication buffers (private attribute names; None if they moved)"""
     out = []
     try:
-        for sl in opt._per_group_state_lists:
-            d = sl["distributor"]
+        for d in find_distributors(opt):
             g = d._global_dist_buffer
             base = g.data_ptr()
             total = g.numel() * g.element_size()
